@@ -384,6 +384,14 @@ Definition dstorm2_ok (hasx : bool) (at_return : list nat) (late : nat) (errs : 
   negb (length at_return =? 0) && forallb (fun c => c =? (if hasx then 1 else 0)) at_return &&
   (late =? 0) && forallb (fun e => err_eqb e ENil) errs.
 
+(** A component whose FIRST Shutdown is given an already-cancelled context, then used again and shut down again
+    with a live one: the first call returns nil or the context error; whatever it returned, the exporter ends
+    up shut down exactly once (the retry is not needed and does no harm), the later calls return nil, and
+    [late] = exports begun through a SIMPLE processor after that first call returned = 0. *)
+Definition dcancel_ok (hasx : bool) (xshut late : nat) (first : err) (later : list err) : bool :=
+  (xshut =? (if hasx then 1 else 0)) && (late =? 0) && err_in first [ENil; ECtx] &&
+  forallb (fun e => err_eqb e ENil) later.
+
 (** One metric reader used directly and through the provider(s) it was handed to: [reg] = 0 (never handed
     to a provider), 1, or 2 (handed to two providers: the second registration is refused, but that
     provider's Shutdown still shuts the reader down).  Whoever shuts the reader down first (the reader's own
